@@ -150,7 +150,9 @@ func genCase(t *rapid.T) Case {
 		if rapid.Bool().Draw(t, "binary") {
 			e = "(" + p1 + " " + rapid.SampledFrom([]string{"*", "*n", "*d", "*+", "*?", "*nd", "*?+", "+", "//", "==", "!=", "<", "-", "*c"}).Draw(t, "aop") + " " + p2 + ")"
 		} else {
-			e = "(" + p1 + " | " + rapid.SampledFrom([]string{"@json", "to_json", "to_yaml", "@yaml", "to_props", "to_xml", "keys", "to_entries", "with_entries(.)", "[..]", "pick([\"a\"])", "omit([\"a\"])", "unique", "unique_by(.)", "group_by(.a)", "sort_by(.a)", "flatten", "reverse", "any", "contains({\"a\": 1})", "has(\"a\")", "length", "map(.)", "sort", "[.[]]", "{\"k\": .}", ".[] as $v | $v", "tojson"[:0] + "to_json(0)", "@base64", "select(.a)", "to_entries | from_entries", ".a // .b", "[.a, .b] | flatten"}).Draw(t, "afn") + ")"
+			e = "(" + p1 + " | " + rapid.SampledFrom([]string{"@json", "to_json", "to_yaml", "@yaml", "to_props", "to_xml", "keys", "to_entries", "with_entries(.)", "[..]", "pick([\"a\"])", "omit([\"a\"])", "unique", "unique_by(.)", "group_by(.a)", "sort_by(.a)", "flatten", "reverse", "any", "contains({\"a\": 1})", "has(\"a\")", "length", "map(.)", "sort", "[.[]]", "{\"k\": .}", ".[] as $v | $v", "tojson"[:0] + "to_json(0)", "@base64", "select(.a)", "to_entries | from_entries", ".a // .b", "[.a, .b] | flatten",
+				// reads of keys that are not there, through the values (aliases among them)
+				"map(.zz)", "map(.nn)", "map(.a.zz)", "map(select(.zz))", "map_values(.)", "[.[] | .zz]", "to_entries | map(.value.zz)", "any_c(.zz)", "all_c(.nn == 2)", "map(has(\"zz\"))", "sort_by(.zz)", "group_by(.nn)", "unique_by(.zz)"}).Draw(t, "afn") + ")"
 		}
 		c.Gen = "alias_doc"
 	} else if dk == 9 {
